@@ -191,6 +191,29 @@ def run (seed : Option Nat) (evs : List Ev) : List Bool × Retr TH TH :=
 
 end Toy
 
+/-! ### which header a Retrieve believes, and the salt it decrypts with
+
+`ServermapUpdater` leaves the slot reader of every share it verified in `ServerMap.proxies`, keyed by
+(verinfo, server, storage index, shnum); the header that reader holds is the one whose signed prefix
+the signature check covered -- for SDMF it contains the 16-byte IV.  `Retrieve._setup_download` reuses
+that reader; only if there is none does it make a fresh one, which fetches the header again from the
+server, and nothing compares that header with the signed prefix (`_try_to_validate_prefix` has no
+caller).  `_decode_blocks` decrypts with the salt reported by the first active reader; SDMF block hashes
+cover the ciphertext only, so a wrong IV is not noticed by the hash checks.  Hence: the IV used for
+decryption is the signed one exactly as long as the readers are the cached ones. -/
+
+/-- one active reader: is it the cached one; the prefix verified at map-update time; the prefix a fresh fetch returns -/
+structure ReaderHdr (H : Type) where
+  cached : Bool
+  verified : Prefix H
+  fetched : Prefix H          -- whatever the server sends now
+
+/-- the header the reader works with -/
+def ReaderHdr.believed {H : Type} (r : ReaderHdr H) : Prefix H := if r.cached then r.verified else r.fetched
+
+/-- `_decode_blocks`: `salt = list(blocks_and_salts.items())[0][1][1]` -- the first active reader's (SDMF: its header's IV) -/
+def decryptSalt {H : Type} (readers : List (ReaderHdr H)) : Option Nat := readers.head?.map (fun r => r.believed.salt)
+
 /-! ### who can make a version: symbolic terms and adversary knowledge (Dolev–Yao) -/
 
 inductive T
